@@ -13,12 +13,15 @@ m=json.load(open('$d/meta.json'))
 ran=m.get('ran','')
 print(' '.join(re.findall(r'C\d\d', ran.split('quick')[-1])))")
   benign=$(python3 -c "import json;print('1' if 'benign' in '$name' else '0')")
+  expected_miss=$(python3 -c "import json;print('1' if json.load(open('$d/meta.json')).get('expected_miss') else '0')")
   out=$(tools/run_seeded.sh $d quick $ids 2>&1 | grep -E "CAUGHT-BY" | tail -1)
   caught=$(echo "$out" | sed 's/CAUGHT-BY://')
   if [ "$benign" = "1" ]; then
     if echo "$caught" | grep -q none; then echo "ok    $name (benign, no alarm)"; else echo "ALARM $name:$caught"; fail=1; fi
   else
-    if echo "$caught" | grep -q none; then echo "MISS  $name"; fail=1; else echo "ok    $name caught by$caught"; fi
+    if [ "$expected_miss" = "1" ]; then
+      if echo "$caught" | grep -q none; then echo "ok    $name (recorded as out of reach, see its meta.json)"; else echo "NOTE  $name is now caught by$caught"; fi
+    elif echo "$caught" | grep -q none; then echo "MISS  $name"; fail=1; else echo "ok    $name caught by$caught"; fi
   fi
 done
 find /verif/replays -name "*.json" -delete
